@@ -324,6 +324,10 @@ func (w *World) Exec(n int, st *Step) *Obs {
 	case "set_cookie":
 		br.Cookies["rm"] = secVal
 		return w.finishNonHTTP(o)
+	case "second_site":
+		// somebody uses the other site hosted by this process
+		w.secondSiteRequest(st.str("what"), o.N)
+		return w.finishNonHTTP(o)
 	case "restart":
 		// the server process restarts: whatever it kept in memory is gone, the
 		// database and the browsers' jars survive
